@@ -41,7 +41,13 @@ IssuerCases == {[kind |-> "issuer", scheme |-> sc, host |-> h, deco |-> d, insec
                    d \in {"none", "path", "slash", "query", "fragment", "pathQuery", "pathFragment"}, ins \in BOOLEAN, v \in {"NewProvider", "NewOpenIDProvider"}}
                \cup {[kind |-> "issuer", scheme |-> x, host |-> "nohost", deco |-> "none", insecure |-> ins, via |-> v] :
                    x \in {"empty", "garbage"}, ins \in BOOLEAN, v \in {"NewProvider", "NewOpenIDProvider"}}
-DiscoverCases == {[kind |-> "discover", doc |-> d] : d \in {"equal", "different", "trailingSlash", "empty", "otherScheme", "subpath"}}
+\* doc: the issuer the document states, relative to the issuer asked for ("urlIssuer": the issuer the custom discovery URL belongs to,
+\* i.e. that URL minus /.well-known/openid-configuration) ; url: where the document is fetched from - the default location, or a custom
+\* discovery URL (variadic argument of client.Discover / rp.WithCustomDiscoveryUrl) on the same or on another host ;
+\* via: the discovery client itself or the relying-party constructor built on it
+DiscoverCases == {[kind |-> "discover", doc |-> d, url |-> u, via |-> v] :
+                    d \in {"equal", "different", "trailingSlash", "empty", "otherScheme", "subpath", "urlIssuer"},
+                    u \in {"default", "customSameHost", "customOtherHost"}, v \in {"client.Discover", "rp.NewRelyingPartyOIDC"}}
 
 Groups == {"config", "issuer", "discover"}
 CasesOf(g) == CASE g = "config" -> ConfigCases [] g = "issuer" -> IssuerCases [] OTHER -> DiscoverCases
